@@ -11,6 +11,7 @@ What is proved here is function level + concrete trees; the propagation over ALL
 tree stream and its monitors (see docs/C10.md).
 -/
 import Mistral.Lemmas.TreePause
+import Mistral.Lemmas.TreeProp
 
 namespace Mistral.Props.C10Tree
 open Mistral Mistral.Tree
@@ -160,5 +161,48 @@ theorem no_task_created_while_paused_run (c : Cfg) (evs : List Event) (hq : ∀ 
 
 /-- non-vacuity: the root is PAUSED and the action result of the leaf's task arrives: nothing is created -/
 example : QuietEv (.deliver (.rpcStartTask 2 true)) = true := rfl
+
+
+/-! ### "After a pause request is acknowledged the workflow and its running sub-workflows are PAUSED" — all trees -/
+
+/-- every reachable state has the shape the propagation proof needs: executions are RUNNING, PAUSED or completed,
+    the owner of every task exists -/
+theorem shape_reachable (c : Cfg) (evs : List Event) : Shape (run c evs) :=
+  ⟨fun i e h => ((allJ_reachable c evs).1 i e h).2.2, (allJ_reachable c evs).2.2.1⟩
+
+/-- For EVERY reachable tree: a pause request on an execution that is not finished is acknowledged (the
+    transaction does not raise), and after it the execution itself and every execution that `pause_workflow`
+    reaches from it through executions that are not completed (`Chain`: sub-workflows of its tasks, their
+    sub-workflows, ... at any depth `d` below the nesting bound of the model) is PAUSED — in the SAME
+    transaction, whatever the kinds of the calling tasks. -/
+theorem pause_propagates (c : Cfg) (evs : List Event) (a : Nat) (e : Exec)
+    (he : (run c evs).execs[a]? = some e) (hc : isCompleted e.state = false) (d y : Nat)
+    (hd : d < fuelOf (run c evs)) (hch : Chain (run c evs) d a y) :
+    stateOf (step c (run c evs) (.pause a)) y = some .PAUSED := by
+  have hok := (pause_ok c (fuelOf (run c evs))).1 (run c evs) a (shape_reachable c evs)
+  have hnr := hok.noraise e he hc
+  simp only [step, hnr, Bool.false_eq_true, if_false]
+  exact hok.paused d y hd hch
+
+/-- ... in particular the paused execution itself (depth 0) -/
+theorem pause_acknowledged_tree (c : Cfg) (evs : List Event) (a : Nat) (e : Exec)
+    (he : (run c evs).execs[a]? = some e) (hc : isCompleted e.state = false) :
+    stateOf (step c (run c evs) (.pause a)) a = some .PAUSED :=
+  pause_propagates c evs a e he hc 0 a (by simp [fuelOf]) ⟨rfl, e, he, hc⟩
+
+/-- the pause transaction creates no execution and no task, keeps every link, and changes execution states
+    only from RUNNING to PAUSED (in every reachable state) -/
+theorem pause_only_pauses (c : Cfg) (evs : List Event) (a : Nat) (e : Exec)
+    (he : (run c evs).execs[a]? = some e) (hc : isCompleted e.state = false) :
+    PMono (run c evs) (step c (run c evs) (.pause a)) := by
+  have hok := (pause_ok c (fuelOf (run c evs))).1 (run c evs) a (shape_reachable c evs)
+  have hnr := hok.noraise e he hc
+  simp only [step, hnr, Bool.false_eq_true, if_false]
+  exact hok.mono
+
+/-- non-vacuity: in the three nested executions the innermost one is reached from the root at depth 2 -/
+example : Chain (run chain3 chain3Up) 2 0 2 :=
+  ⟨1, by decide +kernel, ⟨_, rfl, by decide +kernel⟩, 2, by decide +kernel, ⟨_, rfl, by decide +kernel⟩, rfl, _, rfl,
+   by decide +kernel⟩
 
 end Mistral.Props.C10Tree
